@@ -190,7 +190,8 @@ pub fn run(args: &Args) -> i32 {
                 if trace.len() < 64 {
                     trace.push(op_json(&op));
                 }
-                let wit = |what: &str| json!({"what": what, "initial_total": t0.to_string(), "pure_flag_byte": flag, "ops": trace, "total_before": total.to_string(), "program_before": crate::util::hex(&before), "program_after": crate::util::hex(&after), "sdk_after": crate::util::hex(&after_sdk), "program_result": format!("{rp:?}"), "sdk_result": format!("{rs:?}")});
+                let total_before = total.to_string();
+                let wit = |what: &str| json!({"what": what, "initial_total": t0.to_string(), "pure_flag_byte": flag, "ops": trace, "total_before": total_before, "program_before": crate::util::hex(&before), "program_after": crate::util::hex(&after), "sdk_after": crate::util::hex(&after_sdk), "program_result": format!("{rp:?}"), "sdk_result": format!("{rs:?}")});
                 let ok = match &rp {
                     Err(_) => {
                         m.count("panics_program");
